@@ -303,6 +303,10 @@ def run(ctx):
         big_track_file_modes(ctx, f'{ctx.seed}:big')
         ctx.nontrivial(('big-track',))
         n += 1
+    if ctx.shard == 11 % ctx.nshards:
+        k = overwrite_cases(ctx)
+        ctx.nontrivial(None, k)
+        n += k
     if ctx.shard == 10 % ctx.nshards:
         from .. import customspec
         customspec.scenario(ctx, 'alternative encoding loads to the event list', 'alternative encoding loads to the event list',
@@ -338,6 +342,45 @@ def run(ctx):
                             'encoding_head': b[:40].hex()})
     ctx.extra('event_lists_read', nr)
     ctx.count('cases', n)
+
+
+def overwrite_cases(ctx):
+    """save(filename) onto a path that already holds a longer / shorter / equally long file, a directory
+    entry created by another save, twice in a row: the path then holds exactly the bytes of the file saved
+    last (compared with a save to memory and read with the strict decoder)."""
+    import os
+    import tempfile
+    n = 0
+    rng = random.Random(f'{ctx.seed}:overwrite')
+    for j in range(12):
+        case = {'kind': 'overwrite', 'index': j}
+        fd, path = tempfile.mkstemp(suffix='.mid', prefix='vmon-c08-ow-')
+        os.close(fd)
+        try:
+            sizes = [(40, 3), (2, 1), (2, 1), (25, 2), (0, 1), (60, 1)] if j % 2 == 0 else [(3, 1), (50, 4), (1, 1)]
+            for si, (nmax, ntr) in enumerate(sizes):
+                tracks = [genfile.rand_track_events(rng, nmax=nmax, eot='end', small=True) for _ in range(ntr)]
+                mid = genfile.midifile_of(1, 96 + si, tracks)
+                mid.save(path)
+                buf = io.BytesIO()
+                mid.save(file=buf)
+                with open(path, 'rb') as f:
+                    on_disk = f.read()
+                ctx.check('written bytes conformant', on_disk == buf.getvalue(), 'overwrite:path-differs-from-memory-save', case,
+                          lambda: {'step': si, 'on_disk_len': len(on_disk), 'memory_len': len(buf.getvalue())})
+                try:
+                    d = smf.decode_file(on_disk)
+                    ctx.check('written bytes conformant', not d['flags'] and d['ntrks'] == ntr, 'overwrite:nonconformant', case,
+                              lambda: {'step': si, 'flags': d['flags'][:3]})
+                except smf.Malformed as exc:
+                    ctx.check('written bytes conformant', False, 'overwrite:malformed', case, str(exc))
+        except Exception as exc:
+            ctx.fail('written bytes conformant', f'overwrite:{type(exc).__name__}', case, f'{type(exc).__name__}: {exc}')
+        finally:
+            if os.path.exists(path):
+                os.remove(path)
+        n += 1
+    return n
 
 
 def overlap_jobs():
@@ -385,7 +428,9 @@ def replay(ctx, case):
         from .. import coldstart
         coldstart.replay(ctx, case, 'written bytes conformant')
         return
-    if case['kind'] == 'big-track':
+    if case['kind'] == 'overwrite':
+        overwrite_cases(ctx)
+    elif case['kind'] == 'big-track':
         big_track_file_modes(ctx, 'replay')
     elif case['kind'] == 'charset-write':
         charset_write_case(ctx, case['charset'], case['seed'])
